@@ -1,23 +1,50 @@
 (* C08 Connection lifecycle callbacks fire once and in order.
    Property theorems only; proofs live in Proofs/SubClose.v.  Model: Model/SubLifecycle.v.
 
-   No positive theorem is proved for this property: the callback-ordering claims (connect at
-   most once and first, disconnect at most once and only after connect, no alive after
-   disconnect, unsubscribe exactly once per established subscription that ended) are checked
-   by the oracle on the observed callback log of every gated schedule and by the model/
-   implementation correspondence of that log.  Two parts of the statement are refuted: *)
+   Proved for ALL schedules: the connect callback runs at most once and before every other
+   per-connection callback (subscribe, unsubscribe, alive, disconnect), so in particular a
+   disconnect callback only runs if the connect callback ran.  NOT proved (checked by the
+   oracle on the observed callback log of every gated schedule and by the model/implementation
+   correspondence of that log): disconnect at most once, no alive after disconnect,
+   unsubscribe exactly once per established subscription that ended - the last one is refuted
+   for schedules with the wait-gate timeout. *)
 From Coq Require Import List NArith ZArith Bool.
-From Cfg Require Import Model.SubLifecycle Proofs.SubClose.
+From Cfg Require Import Model.SubLifecycle Proofs.SubClose Proofs.SubCallbacks.
 Import ListNotations.
 Open Scope N_scope.
 
+(* [cbs] = the callback events of the trace (OnConnect start, OnSubscribe, OnUnsubscribe,
+   OnAlive, OnDisconnect). *)
+Theorem C08_connect_first_and_once :
+  forall sched s,
+    exec sched init = Some s ->
+    cbs (trace s) = [] \/ exists l, cbs (trace s) = EvConnectCb :: l /\ ~ In EvConnectCb l.
+Proof. exact connect_first_once. Qed.
+Print Assumptions C08_connect_first_and_once.
+
+Theorem C08_callbacks_only_after_connect :
+  forall sched s e,
+    exec sched init = Some s -> In e (trace s) -> is_cb e = true -> In EvConnectCb (trace s).
+Proof. exact callback_needs_connect. Qed.
+Print Assumptions C08_callbacks_only_after_connect.
+
 (* "After node shutdown completes ... no new connection becomes connected": a connection accepted
-   before Node.Shutdown whose connect command is processed afterwards registers and becomes
-   connected (connectCmd / triggerConnect never look at the shutdown flag). *)
-Theorem C08_connected_after_shutdown_refuted :
-  exists sched s, exec sched init = Some s /\ all_finished s = true /\ shut s = true /\ status s = Connected.
-Proof. exact shutdown_connect_refuted. Qed.
-Print Assumptions C08_connected_after_shutdown_refuted.
+   before Node.Shutdown whose connect command is processed afterwards is refused since fix 778bc3f1
+   (connectCmd looks at the shutdown state right after registering): the former witness schedule
+   now ends closed, unregistered, without any callback ... *)
+Theorem C08_connect_after_shutdown_refused :
+  exists sched s, exec sched init = Some s /\ all_finished s = true /\ shut s = true /\
+                  status s = Closed /\ reg s = false /\ trace s = [].
+Proof. exact shutdown_connect_refused. Qed.
+Print Assumptions C08_connect_after_shutdown_refused.
+
+(* ... whereas the pre-fix connect command (no check at that point) went on from the same state
+   to the OnConnect handler and stayed connected after the completed shutdown. *)
+Theorem C08_no_shutdown_check_prefix_refuted :
+  exists sched s s', exec sched init = Some s /\ shut s = true /\ thr s 2 = Some (TCon KShut) /\
+                     run_con_nocheck 10 s 2 = Some s' /\ all_finished s' = true /\ status s' = Connected.
+Proof. exact no_shutdown_check_refuted. Qed.
+Print Assumptions C08_no_shutdown_check_prefix_refuted.
 
 (* "the unsubscribe callback runs exactly once for every established subscription that ends":
    after the wait-gate timeout an established subscription can lose its context through another
